@@ -91,6 +91,7 @@ func run(prop, tier string, fn propFn, replayRK string) (code int) {
 			return 1
 		}
 		c.L = l
+		gL = l
 		cfgNames = append(cfgNames, l.Config)
 		fn(c)
 	}
